@@ -110,6 +110,11 @@ def sample2d_rules(prog: Program, rep: Report) -> None:
     ok = isinstance(res, Phi) and res.test.startswith("where:") and isinstance(res.a, NF) and res.a == NF.atom("ov")
     cond = res.test if isinstance(res, Phi) else ""
     rep.check("R16.3", fi.qual, "outside the grid: every non-None outside_value (0.0 included) replaces the result", ok, what_bad=f"result is {vtext(res)[:200]}: the substitute is applied only under a further test", what_ok="where(outside, outside_value, result)", loc=fi.loc())
+    # ... also when a mask is given: the outside substitute wins over the undefined-value substitute
+    # (an outside point is evaluated on a dummy cell whose mask says nothing about it)
+    resm, frm, itm, domm, fim = sample2d_eval(prog, "sample2D", any_outside=True, mask=NF.atom("mask"), outside_value=NF.atom("ov"), undef=NF.atom("undef"))
+    okm = isinstance(resm, Phi) and resm.test == cond and isinstance(resm.a, NF) and resm.a == NF.atom("ov")
+    rep.check("R16.3", fi.qual, "outside the grid with a mask: outside_value is the outermost substitution", okm, what_bad=f"result is {vtext(resm)[:200]}: for a point outside the grid the undefined-value test of the dummy cell decides what is returned", what_ok="where(outside, outside_value, where(undefined, undef_value, mean))", loc=fi.loc())
     # the outside predicate: 0 <= x < imax-1 etc. (uses shape F.shape = (jmax, imax))
     want_parts = ["lt(X;0)", "lt(Y;0)"]
     rep.check(rule, fi.qual, "outside predicate covers all four sides", all(p in cond for p in want_parts) and "ge(X;-1 + shape:F[1])" in cond and "ge(Y;-1 + shape:F[0])" in cond, what_bad=f"predicate {cond}", what_ok="x<0 | x>=imax-1 | y<0 | y>=jmax-1", loc=fi.loc())
@@ -358,6 +363,7 @@ AUDIT = [
     Mut("undef-ignored", S_, "        SW <= 0,\n        undef_value,", "        SW <= 0,\n        0.0,", rule="R16.2"),
     Mut("outside-side-missing", S_, "outside = (X0 < 0) | (X0 >= imax - 1) | (Y0 < 0) | (Y0 >= jmax - 1)", "outside = (X0 < 0) | (X0 >= imax - 1) | (Y0 >= jmax - 1)", rule="R16.2"),
     Mut("outside-axis-swapped", S_, "outside = (X0 < 0) | (X0 >= imax - 1) | (Y0 < 0) | (Y0 >= jmax - 1)", "outside = (X0 < 0) | (X0 >= jmax - 1) | (Y0 < 0) | (Y0 >= imax - 1)", rule="R16.2"),
+    Mut("undef-after-outside", S_, "    # Set in outside_values\n    if outside_value is not None:\n        result = np.where(outside, outside_value, result)\n", "    # Set in outside_values\n    if outside_value is not None:\n        result = np.where(outside, outside_value, result)\n    result = np.where(SW <= 0, undef_value, result)\n", rule="R16.3"),
     Mut("outside-no-raise", S_, '        if outside_value is None:\n            raise ValueError("point outside grid")\n', "", rule="R16.3"),
     Mut("sample2d-axes", S_, "(W00 * F[J, I] + W01 * F[J + 1, I] + W10 * F[J, I + 1] + W11 * F[J + 1, I + 1])\n        / SW,\n    )", "(W00 * F[I, J] + W01 * F[I, J + 1] + W10 * F[I + 1, J] + W11 * F[I + 1, J + 1])\n        / SW,\n    )", rule="R16.2"),
     Mut("xy2ll-no-j0", R_, "            sample2D(self.lat, X - self.i0, Y - self.j0),", "            sample2D(self.lat, X - self.i0, Y),", rule="R16.1"),
